@@ -8,7 +8,7 @@ from proto import T
 
 RULE = ('all pairs and sampled triples from a pool of plain symbols, wrappers around three different user classes exposing key / '
         'is_exception (one also aliases), and WITH pairs, with keys chosen so that tuple order and string order of renderings '
-        'differ, and plain / wrapped symbols whose key spells like the rendering of a WITH pair of the pool; Spec on the real code: == iff key and flag (both parts for WITH; plain never equals WITH), != its negation, equal '
+        'differ, plain / wrapped / WITH symbols whose exception flag is not a bool (None, empty and non-empty strings, 2, 0, 1: the flag counts as it is), and plain / wrapped symbols whose key spells like the rendering of a WITH pair of the pool; Spec on the real code: == iff key and flag (both parts for WITH; plain never equals WITH), != its negation, equal '
         '=> same hash, truthy, copy equal with aliases kept, for different renderings exactly one of a<b, b<a and it is the string '
         'order (so sorting is consistent across kinds). Key normalisation: every key string over a small alphabet (exhaustive up to '
         'length 3 quick / 4 thorough) and malformed keys (empty, blank, bytes, None, numbers) against the model\'s normKey. '
@@ -53,6 +53,14 @@ def pool():
         for ex in (False, True):
             out.append(('plain', [T('sym'), k, ex], le.LicenseSymbol(k, is_exception=ex)))
         out.append(('like0', [T('sym'), k, False], le.LicenseSymbolLike(U1(k, False))))
+    # flags that are not bools (user objects with nullable or integer flags): the flag counts as it is - None is not False,
+    # 2 is not True, 0 is False, 1 is True - and equal symbols still hash equally
+    for k in KEYS[:2]:
+        for ex in (None, '', 'yes', 2, 0, 1):
+            out.append(('plainx', [T('sym'), k, ex], le.LicenseSymbol(k, is_exception=ex)))
+            out.append(('likex', [T('sym'), k, ex], le.LicenseSymbolLike(U1(k, ex))))
+    out.append(('withx', [T('with'), 'GPL', None, 'Classpath', 2], le.LicenseWithExceptionSymbol(le.LicenseSymbol('GPL', is_exception=None), le.LicenseSymbol('Classpath', is_exception=2))))
+    out.append(('withx', [T('with'), 'GPL', 0, 'Classpath', 1], le.LicenseWithExceptionSymbol(le.LicenseSymbol('GPL', is_exception=0), le.LicenseSymbol('Classpath', is_exception=1))))
     return out
 
 
@@ -80,6 +88,9 @@ class Prop(BaseProp):
         if ra != rb:
             if lt == gt or lt != (ra < rb):
                 return Verdict('spec', case, '< is not the string order of the renderings', impl=[lt, gt], model=[ra < rb, rb < ra])
+        if ka.endswith('x') or kb.endswith('x'):
+            # the model's flags are booleans: no correspondence for the others
+            return Verdict('ok', case, impl=[eq, lt, gt], nontrivial=True, tags=['kinds=%s/%s' % (ka[:4], kb[:4]), 'non-bool flag'])
         m = drv.call(T('symrel'), ca, cb)
         if [eq, lt, gt] != [bool(m[0]), bool(m[1]), bool(m[2])]:
             return Verdict('diverge', case, 'symbol relations', impl=[eq, lt, gt], model=m)
